@@ -47,6 +47,9 @@ def variants(P, seed):
     for k in range(N[0]):
         mode = ["shared_target", "ground_all", "shared_db"][k % 3]
         h = dict(base, mode=mode, seed=rng.randrange(1 << 30))
+        if mode == "ground_all" and P["evidence"] and k % 2 == 1:
+            h["propagate"] = True
+            mode = "ground_all+propagate"
         out.append(("%s#%d" % (mode, k), src, {"history": h}))
     return out
 
